@@ -41,6 +41,8 @@ let vars = [ "n", (TInt, VInt (z_of_int 3)); "m", (TInt, VInt (z_of_int (-12)));
              "fl", (TFloat, VFloat (str_of_string "1.5")); "g", (TFloat, VFloat (str_of_string "1e+21"));
              "er", (TErr, VErr (Some (EBase (n_of_int 1)))); "b", (TBool, VBool true) ]
 let err_text (_ : err) : str = str_of_string "E"
+(* float literals of the generators -> strconv.FormatFloat(f, 'g', -1, 64) *)
+let float_lits = [ "2.50", "2.5"; "2.0", "2"; "1e3", "1000"; "0.5", "0.5"; "1e21", "1e+21"; "12.0e-1", "1.2"; "1_0.2_5", "10.25"; "0x1p-2", "0.25"; "100.", "100" ]
 let parse_expr (src : string) : ty * expr =
   let n = String.length src in
   let i = ref 0 in
@@ -68,7 +70,22 @@ let parse_expr (src : string) : ty * expr =
     ws ();
     if !i >= n then raise Bad;
     match src.[!i] with
-    | '0'..'9' | '-' -> (TInt, EConst (VInt (z_of_int (number ()))))
+    | '0'..'9' ->
+      (* a Go number literal in any spelling: hex / octal / binary / digit separators, floats by table *)
+      let j = !i in
+      while !i < n && (match src.[!i] with '0'..'9' | 'a'..'z' | 'A'..'Z' | '_' | '.' -> true
+                                         | '+' | '-' -> !i > j && (src.[!i - 1] = 'e' || src.[!i - 1] = 'E') && not (String.length src > j + 1 && (src.[j + 1] = 'x' || src.[j + 1] = 'X'))
+                                         | _ -> false) do incr i done;
+      let lit = String.sub src j (!i - j) in
+      (match List.assoc_opt lit float_lits with
+       | Some r -> (TFloat, EConst (VFloat (str_of_string r)))
+       | None ->
+         let go_int l =
+           let l' = String.concat "" (String.split_on_char '_' l) in
+           if String.length l' > 1 && l'.[0] = '0' && (match l'.[1] with '0'..'9' -> true | _ -> false)
+           then int_of_string ("0o" ^ String.sub l' 1 (String.length l' - 1)) else int_of_string l' in
+         (try (TInt, EConst (VInt (z_of_int (go_int lit)))) with Failure _ -> raise Bad))
+    | '-' -> (TInt, EConst (VInt (z_of_int (number ()))))
     | '(' -> incr i; let r = expr () in expect ')'; r
     | '"' -> incr i; let j = !i in
       while !i < n && src.[!i] <> '"' do incr i done;
